@@ -140,6 +140,43 @@ inline void shared_body(const Cell& c, const POp& p, OpResult& res, RoundState& 
     rs.readers_inside.fetch_sub(1, std::memory_order_relaxed);
 }
 
+// functors that can be applied to a mutable and to a const object: modify() must reach the first form (under the exclusive
+// lock), read() the second one (the object it hands out is const)
+struct DualVoid {
+    const POp* p;
+    OpResult* res;
+    RoundState* rs;
+    bool reading = false;
+    void operator()(Cell& c) const
+    {
+        if (reading) vrf::violation("oracle:read_handed_out_a_mutable_object", "{}");
+        excl_body(c, *p, *res);
+    }
+    void operator()(const Cell& c) const
+    {
+        if (!reading) vrf::violation("oracle:modify_applied_the_callable_to_a_const_object", "{}");
+        shared_body(c, *p, *res, *rs);
+    }
+};
+struct DualRet {
+    const POp* p;
+    OpResult* res;
+    RoundState* rs;
+    bool reading = false;
+    int operator()(Cell& c) const
+    {
+        if (reading) vrf::violation("oracle:read_handed_out_a_mutable_object", "{}");
+        excl_body(c, *p, *res);
+        return static_cast<int>(c.n);
+    }
+    int operator()(const Cell& c) const
+    {
+        if (!reading) vrf::violation("oracle:modify_applied_the_callable_to_a_const_object", "{}");
+        shared_body(c, *p, *res, *rs);
+        return static_cast<int>(c.n);
+    }
+};
+
 template<int FAM, class W, class M>
 void do_op(W& w, const POp& p, int tid, RoundState& rs, std::vector<std::future<int>>* futs = nullptr)
 {
@@ -193,9 +230,12 @@ void do_op(W& w, const POp& p, int tid, RoundState& rs, std::vector<std::future<
         }
     }
     if constexpr (FAM == F_ORDERED) {
+        // the callable reaches the wrapper as a named lambda, as an rvalue of a value-category-sensitive callable, or as a
+        // functor that accepts both T& and const T& (modify must use the first form, read the second)
         if (p.op == MODIFY) {
             auto fn = [&](Cell& c) { excl_body(c, p, res); };
-            if (p.id % 2) w.modify(vrf::one_shot(fn));  // rvalue of a value-category-sensitive callable
+            if (p.id % 4 == 2) w.modify(DualVoid{&p, &res, &rs});
+            else if (p.id % 2) w.modify(vrf::one_shot(fn));
             else w.modify(fn);
             res.success = true;
         }
@@ -204,13 +244,14 @@ void do_op(W& w, const POp& p, int tid, RoundState& rs, std::vector<std::future<
                 excl_body(c, p, res);
                 return static_cast<int>(c.n);
             };
-            int n = (p.id % 2) ? w.modify(vrf::one_shot(fn)) : w.modify(fn);
+            int n = (p.id % 4 == 2) ? w.modify(DualRet{&p, &res, &rs}) : (p.id % 2) ? w.modify(vrf::one_shot(fn)) : w.modify(fn);
             (void)n;
             res.success = true;
         }
         if (p.op == READ) {
             auto fn = [&](const Cell& c) { shared_body(c, p, res, rs); };
-            if (p.id % 2) w.read(vrf::one_shot(fn));
+            if (p.id % 4 == 2) w.read(DualVoid{&p, &res, &rs, true});
+            else if (p.id % 2) w.read(vrf::one_shot(fn));
             else w.read(fn);
             res.success = true;
         }
@@ -219,7 +260,7 @@ void do_op(W& w, const POp& p, int tid, RoundState& rs, std::vector<std::future<
                 shared_body(c, p, res, rs);
                 return static_cast<int>(c.n);
             };
-            int n = (p.id % 2) ? w.read(vrf::one_shot(fn)) : w.read(fn);
+            int n = (p.id % 4 == 2) ? w.read(DualRet{&p, &res, &rs, true}) : (p.id % 2) ? w.read(vrf::one_shot(fn)) : w.read(fn);
             (void)n;
             res.success = true;
         }
@@ -279,7 +320,11 @@ void do_op(W& w, const POp& p, int tid, RoundState& rs, std::vector<std::future<
                 excl_body(c, pc, dummy);
                 rsp->functor_runs[pc.id % 64].fetch_add(1, std::memory_order_relaxed);
             };
-            if (p.id % 2) w.modify_detach(vrf::one_shot(fn));
+            if (p.id % 4 == 2) {  // a named callable given as an lvalue stays usable
+                auto named = vrf::one_shot(fn);
+                w.modify_detach(named);
+                vrf::still_usable(named);
+            } else if (p.id % 2) w.modify_detach(vrf::one_shot(fn));
             else w.modify_detach(fn);
             res.success = true;
             res.wrote = true;
